@@ -152,8 +152,13 @@ static void resolver(cocls::promise<T> &p, int i, int kind) {
         }
         case R_ASSIGN:
             // move-assigning over the live promise drops what it pointed to (resolution to no-value); nothing is reported
-            p = cocls::promise<T>();
-            s[S_RET + i] = 5;
+            // - and the source, a named promise that lives on, is left empty: it must not take the overwritten target along
+            {
+                cocls::promise<T> q;
+                p = std::move(q);
+                if (q) vrt_fail("future/assign-source-armed", "after p = std::move(q) the source q is armed: the target p pointed to was handed to q instead of being dropped");
+                s[S_RET + i] = 5;
+            }
             break;
         default: break;
     }
